@@ -35,7 +35,7 @@ def collision_cases():
 
 
 def all_cases(ctx):
-    cs = F.f_unit(5) + F.f_shape() + collision_cases()
+    cs = F.f_unit(5) + F.f_shape() + collision_cases() + F.reordered(F.f_shape() + [c for c in F.f_unit(3) if c[0][0] == "pair"][:12])
     cs += F.renamed([c for c in F.f_unit(3) if c[0][0] == "pair"][:12] + [c for c in F.f_unit(3, pairs=False)], "ternary")
     cs += F.f_rand(ctx.seed, 30 if ctx.quick else 300)
     if not ctx.quick:
